@@ -52,6 +52,10 @@ var forms = []form{
 	{"", "fresh/new/dst", false}, {"", "dst-evil", false},
 }
 
+// with the working directory gone (cg:1): relative spellings are an error before anything happens, absolute ones work
+var goneForms = []string{"dst", "", ".", "./dst/", "../" + placeholder + "/dst", "/tmp/" + placeholder + "/dst",
+	"/tmp//" + placeholder + "/outside/../dst/", "/tmp/" + placeholder + "/fresh/dst", "x/../dst"}
+
 // Gen emits archives of the ordinary generator with a destination spelling each.
 func (formArea) Gen(r *hx.Rng, n int, _ string, emit func(string)) {
 	priv := os.Geteuid() == 0
@@ -59,6 +63,10 @@ func (formArea) Gen(r *hx.Rng, n int, _ string, emit func(string)) {
 		f := forms[i%len(forms)]
 		if i >= len(forms) && r.Chance(1, 2) {
 			f = hx.Pick(r, forms)
+		}
+		if i >= len(forms) && i%8 == 0 { // the working directory was removed: only ExtractWithMask, no via
+			emit(fmt.Sprintf("%s cg:1 dd:%s", genLine(r, priv, false), hexs(goneForms[(i/8)%len(goneForms)])))
+			continue
 		}
 		line := genLine(r, priv, f.force)
 		hs := fnv.New32a()
@@ -140,8 +148,14 @@ func (closeArea) Run(line string) string {
 			}
 			rest = append(rest, w)
 		}
-		if cf == "" || strings.Contains(cf, "..") || strings.HasPrefix(cf, "/") {
+		// a clean relative path below the destination; `..a` and `a..b` are ordinary names, only a `..` COMPONENT is refused
+		if cf == "" || strings.HasPrefix(cf, "/") {
 			return "bad-op"
+		}
+		for _, c := range strings.Split(cf, "/") {
+			if c == "" || c == "." || c == ".." {
+				return "bad-op"
+			}
 		}
 		t, err := os.MkdirTemp("/tmp", "c19-")
 		must(err)
